@@ -291,6 +291,8 @@ func c14Class(site string) string { return site }
 var c14Sites = []string{"transformer.parseType#0", "transformer.parseConditionParams#0", "transformer.parseConditions#0"}
 
 func c14One(ctx *core.Ctx, tag string, m *ref.Model, thorough bool) {
+	// large models (the size sweeps): every single deviation at every map site instead of full permutations
+	light := modelSize(m) > 8 || len(m.Types) > 8
 	pm0 := ref.ToProto(m)
 	modular := false
 	for _, t := range m.Types {
@@ -350,7 +352,11 @@ func c14One(ctx *core.Ctx, tag string, m *ref.Model, thorough bool) {
 			}
 			// each printer site fully permuted on its own, then every pair of deviations anywhere
 			for _, s := range c14Sites {
-				run(rt.Config{Class: c14Class, Budget: map[string]int{s: -1}, MaxExec: 3000, Stop: ctx.Expired})
+				b := -1
+				if light {
+					b = 1
+				}
+				run(rt.Config{Class: c14Class, Budget: map[string]int{s: b}, MaxExec: 3000, Stop: ctx.Expired})
 				if bad {
 					return
 				}
@@ -358,7 +364,7 @@ func c14One(ctx *core.Ctx, tag string, m *ref.Model, thorough bool) {
 					break
 				}
 			}
-			if pi == 0 || thorough {
+			if (pi == 0 || thorough) && !light {
 				run(rt.Config{Class: func(string) string { return "" }, Budget: map[string]int{"": 2}, MaxExec: 3000, Stop: ctx.Expired})
 				if bad {
 					return
@@ -526,6 +532,17 @@ func c14Models(thorough bool) []gen.Tagged {
 		}
 	}
 	out = append(out, c14Modular(thorough)...)
+	// size sweeps: many items tied on (module, file); plain sweeps
+	sizes := gen.SweepSizesSmall
+	if thorough {
+		sizes = gen.SweepSizes
+	}
+	for _, n := range sizes {
+		for _, kind := range []string{"relations", "types", "conditions"} {
+			out = append(out, gen.SweepModular(kind, n))
+		}
+		out = append(out, gen.SweepRelations(n), gen.SweepConditions(n), gen.SweepParams(n))
+	}
 	return out
 }
 
@@ -546,7 +563,7 @@ func c14Run(ctx *core.Ctx) {
 func init() {
 	core.Register(&core.Check{
 		ID: "C14",
-		Rule: "plain models (generator families) and modular models (3 types x 7 module/file attributions incl. file names with space # , : , module without file and file without module; relations attributed to extensions; 3 conditions) " +
+		Rule: "plain models (generator families) and modular models (3 types x 7 module/file attributions incl. file names with space # , : , module without file and file without module; relations attributed to extensions; 3 conditions) and size sweeps (4..128 relations / types / conditions over five tied (module, file) groups incl. module without file and unattributed; plain sweeps; single deviations at every map site instead of full permutations) " +
 			"x both option values x every permutation of the type-definition list (modular) / reversal (plain) x map schedules of the printer's three map-iteration sites " +
 			"(each site fully permuted on its own, plus every pair of deviations anywhere) x 4 JSON encodings (object key order as marshalled/descending/ascending/rotated, at every nesting level). " +
 			"states = distinct DSL texts, non-trivial = distinct (plain, with-source) output pairs",
